@@ -277,9 +277,12 @@ class Language(object):
                         raise BracketMismatch('(') from e
                 if token in "(,":
                     stack.append(None)
+                elif not stack:
+                    raise BracketMismatch('(')
             elif token == ":":
                 previous = stack[-1]
-                assert isinstance(previous, Expr)
+                if previous is None:
+                    raise ParseError("Type annotation without expression")
                 t = self.parse_type(tokens)
 
                 # Anonymous sources are immediately treated as the given type
@@ -291,7 +294,7 @@ class Language(object):
                     if unify or isinstance(previous, Source):
                         previous.type.unify(t, subtype=True)
                 except TypingError as e:
-                    if previous_token.isnumeric():
+                    if previous_token.isdecimal():
                         input = int(previous_token)
                     else:
                         input = None
@@ -303,7 +306,7 @@ class Language(object):
                 current: Optional[Expr]
                 if token == "-":
                     current = Source()
-                elif token.isnumeric():
+                elif token.isdecimal():
                     input = int(token)
                     try:
                         current = args_map[input - 1]
@@ -404,7 +407,8 @@ class Language(object):
                 stack.append(TypeVariable())
             elif token == "*":
                 t1 = stack.pop()
-                assert isinstance(t1, TypeInstance)
+                if not isinstance(t1, TypeInstance):
+                    raise ParseError("Product type without left-hand side")
                 stack.append(Product)
                 stack.append(t1)
             else:
